@@ -17,7 +17,8 @@ from props import c05 as L
 ID = 'C06'
 MODULE = 'PyTough.Props.C06'
 TARGETS = ['PyTough.Props.C06', 'drv_c05']
-THEOREMS = ['Props.C06.' + t for t in ['scan_reads_selected_lines', 'history_table_eq_cells', 'reversed_key_negated']]
+THEOREMS = ['Props.C06.' + t for t in ['scan_reads_selected_lines', 'history_table_eq_cells', 'reversed_key_negated',
+                                    'history_leaves_reader_unchanged', 'history_preserves_view']]
 LEVEL_TEXT = ''
 LEVEL_NOTE = ''
 TECHNIQUE = L.TECHNIQUE
@@ -168,6 +169,18 @@ def expected_series(item, views, sc, family, short, outputs_with_short):
     return vals, True
 
 
+def H_unj(k):
+    return tuple(k) if isinstance(k, list) else k
+
+
+def vals_full_at(views, i, item, tables):
+    """the negated cell of a reversed connection item in the table shown at index i"""
+    rows, cols, m = views[i][3]['connection']
+    key = H_unj(item[1])[::-1]
+    r = max(k for k, x in enumerate(rows) if x == key)
+    return -float(m[r, cols.index(item[2])])
+
+
 def job_c06(job, progress):
     import numpy as np
     rel, family, vspec = job['rel'], job['family'], job['vspec']
@@ -275,6 +288,18 @@ def job_c06(job, progress):
             kind = 'reversed' if (table_name_of(it[0]) == 'connection' and isinstance(it[1], list) and tuple(it[1]) not in tables['connection'][0]) else \
                    'index' if isinstance(it[1], int) else 'name'
             st['row-by-' + kind] += 1
+            if kind == 'reversed':
+                # stepping reads the cell under the reversed name: table[(b, a)][col] must be the negated cell
+                try:
+                    rv = lst.connection[H_unj(it[1])]
+                    got_cell = None if rv is None else float(rv[it[2]])
+                except Exception as e:
+                    got_cell = 'exc:' + type(e).__name__
+                want_cell = vals_full_at(views, call['start'], it, tables)
+                st['reversed-lookups'] += 1
+                if got_cell is None or isinstance(got_cell, str) or not L.same_float(got_cell, want_cell):
+                    viol('reversed-lookup:%s' % family, 'connection[%r][%r] is %r, the negated cell is %r' % (H_unj(it[1]), it[2], got_cell, want_cell), **call)
+                    break
             if len(got_v) != len(vals) or any(not L.same_float(a, b) for a, b in zip(got_v, vals)):
                 j = next((j for j, (a, b) in enumerate(zip(got_v, vals)) if not L.same_float(a, b)), min(len(got_v), len(vals)))
                 viol('history-values:%s:%s:%s' % (family, table_name_of(it[0]).rstrip('0123456789'), kind),
